@@ -98,16 +98,17 @@ pub async fn handle_notify_get_or_head(
         return Err(req)
     }
 
+    // Subscribe before looking at the current version so that we cannot
+    // miss a notification sent between the check and the subscription.
+    let mut receiver = notify.subscribe();
+
     let wait = match need_wait(&req, history) {
         Ok(wait) => wait,
         Err(resp) => return Ok(resp),
     };
 
-    #[cfg(routinator_verif)]
-    crate::verif::preempt("notify-after-check");
-
     if wait {
-        notify.subscribe().recv().await;
+        receiver.recv().await;
     }
 
     if req.is_head() {
